@@ -15,7 +15,7 @@ RULE = ("cases = (a) dtw.warping_paths_affinity matrices: every in-band cell (ab
         "an earlier match of the session; histories: sequences of kbest_matches calls with restart True/False compared "
         "with fresh objects. Grids over gamma/tau/delta/delta_factor, penalty {None,0,.1,1}, window, only_triu, "
         "self-comparison. non-trivial = both lengths >= 3 and at least one positive cell off the border.")
-ASSUME = ["tolerance 1e-9 (cell recurrence) / 16 ulp (engines)", "buffer=0 in the stream monitor"]
+ASSUME = ["tolerance 1e-9 (cell recurrence) / 16 ulp (engines)", "buffer in {0, -1, 1, 2} per session (positive buffers only for the non-compact forms, which support them); the maximum check only for buffer=0"]
 PLAN = Plan("C18", RULE, ASSUME,
             workers={"quick": [("plain", 16, "C18")], "thorough": [("plain", 13, "C18"), ("asan", 3, "C18")]},
             deciding=("affinity_cells_checked", "engine_cells_compared", "lc_paths_checked", "lc_history_sequences_checked"),
@@ -162,25 +162,43 @@ def run(ctx):
                         return LocalConcurrences(a1, None if selfcmp else a2, use_c=use_c, compact=compact, **lkw)
                     lc = mk()
                     lc.align()
-                    ops = [(rng.choice([1, 2, 3]), rng.choice([1, 2]), True)]
+                    # buffer: 0 mostly; negative (whole rows/columns of a match are blocked) and positive (neighbourhood
+                    # blocked, not supported by the compact form) in some sessions.  One buffer value per session.
+                    buf = rng.choice([0, 0, 0, -1, 1, 2])
+                    if compact and buf > 0:
+                        buf = 0
+                    ops = [(rng.choice([1, 2, 3]), rng.choice([1, 2]), True, rng.choice(["iter", "iter", "store_keep", "store_drop"]))]
                     for _ in range(rng.randint(0, 2)):
-                        ops.append((rng.choice([1, 2]), rng.choice([1, 2]), rng.random() < 0.4))
+                        ops.append((rng.choice([1, 2]), rng.choice([1, 2]), rng.random() < 0.4,
+                                    rng.choice(["iter", "iter", "store_keep", "store_drop"])))
+                    ctx.count("lc_buffer:%d" % buf)
                     consumed = set()
                     session = []
                     silent_discards = False
                     okall = True
-                    for (k, minlen, restart) in ops:
-                        if restart:
+                    dropped = False
+                    for (k, minlen, restart, how) in ops:
+                        if restart or dropped:
+                            # kbest_matches_store(keep=False) resets the bookkeeping when it returns: what follows is a new session
                             consumed = set()
                             session = []
                             silent_discards = False
-                        if minlen > 1:
-                            silent_discards = True     # shorter candidates are consumed without being yielded
+                        fresh_expected = restart or dropped
+                        dropped = False
+                        if minlen > 1 or buf != 0:
+                            silent_discards = True     # shorter candidates / buffered neighbours are consumed without being yielded
                         got = []
                         sb = monitors.step_bound([LocalConcurrences.kbest_matches.__code__, LocalConcurrences.best_path.__code__],
                                                  3000 * (r + 5) * (c + 5))
                         sb.__enter__()
-                        for m in lc.kbest_matches(k=k, minlen=minlen, buffer=0, restart=restart):
+                        if how == "iter":
+                            stream = lc.kbest_matches(k=k, minlen=minlen, buffer=buf, restart=restart)
+                        else:
+                            stream = list(lc.kbest_matches_store(k=k, minlen=minlen, buffer=buf, restart=restart,
+                                                                 keep=(how == "store_keep")))
+                            dropped = how == "store_drop"
+                            ctx.count("lc_store_calls:" + how)
+                        for m in stream:
                             path = [(int(x), int(y)) for x, y in m.path]
                             ctx.count("lc_paths_checked")
                             prob = path_problem(path, MPl, consumed)
@@ -197,7 +215,7 @@ def run(ctx):
                                 if endv < best * (1 - 1e-12) - 1e-15:
                                     prob = "match does not start from the maximal available cell: %r < %r" % (endv, best)
                             if prob:
-                                ctx.violation("lc-match-invalid", fn=fn, reason=prob, path=path, ops=[list(o) for o in ops], **wit)
+                                ctx.violation("lc-match-invalid", fn=fn, reason=prob, path=path, ops=[list(o) for o in ops], buffer=buf, **wit)
                                 okall = False
                                 break
                             consumed.update(path)
@@ -206,13 +224,14 @@ def run(ctx):
                         if not okall:
                             break
                         session.append((k, minlen, got))
-                        if restart:
-                            # a restarted search must equal the first answer of a fresh object
+                        if fresh_expected:
+                            # a restarted search (or one after a store call that dropped its bookkeeping) must equal
+                            # the first answer of a fresh object
                             fresh = mk()
                             fresh.align()
-                            want = [[(int(x), int(y)) for x, y in m.path] for m in fresh.kbest_matches(k=k, minlen=minlen, buffer=0)]
+                            want = [[(int(x), int(y)) for x, y in m.path] for m in fresh.kbest_matches(k=k, minlen=minlen, buffer=buf)]
                             if want != got:
-                                ctx.violation("history-dependence", fn=fn, ops=[list(o) for o in ops], got=got, fresh=want, **wit)
+                                ctx.violation("history-dependence", fn=fn, ops=[list(o) for o in ops], buffer=buf, got=got, fresh=want, **wit)
                                 okall = False
                                 break
                     ctx.count("lc_history_sequences_checked")
